@@ -16,7 +16,6 @@ import (
 
 	"github.com/fatedier/frp/pkg/msg"
 	"github.com/fatedier/frp/pkg/nathole"
-	"github.com/fatedier/frp/pkg/util/log"
 	"github.com/fatedier/frp/pkg/util/util"
 
 	"verifharness/hx"
@@ -96,6 +95,7 @@ type sessInfo struct {
 	lastCm  *msg.NatHoleClient
 	vmMapped, cmMapped []string
 	base    []int // inbox sizes when the sid was handed over
+	deliveredAt time.Time
 }
 
 type scenario struct {
@@ -112,6 +112,7 @@ type scenario struct {
 	dist    map[string]int
 	fails   []map[string]string
 	stuck   []string
+	lastRunErr string
 	mu      *sync.Mutex // protects dist (shared between scenarios)
 }
 
@@ -340,6 +341,7 @@ func (s *scenario) deliver(x *sessInfo) bool {
 			if y.real == sid {
 				y.state = "wait"
 				s.ev("EvDeliver %d", y.idx)
+				s.ev("EvHandoverDone %d", x.proxy.chIdx) // the stand-in receiver is back at its channel at once
 			}
 		}
 		s.count("deliver")
@@ -631,7 +633,7 @@ Print NEVGIVEUP.
 `
 
 func runController(cfg *hx.RunCfg) error {
-	log.InitLogger("/dev/null", "error", 0, true)
+	hx.Quiet()
 	nathole.NatHoleTimeout = 1
 	dist := map[string]int{}
 	var mu sync.Mutex
@@ -719,7 +721,7 @@ func runController(cfg *hx.RunCfg) error {
 // literal in HandleVisitor, so there is nothing a verif setter could shrink): one session that ends in an error pair
 // (sleep 30 s) and one with instructions of mode 0 row 0 (sleep 35 s).  The recipe runs it in the background.
 func runSleepDelete(cfg *hx.RunCfg) error {
-	log.InitLogger("/dev/null", "error", 0, true)
+	hx.Quiet()
 	nathole.NatHoleTimeout = 2
 	dist := map[string]int{}
 	var mu sync.Mutex
